@@ -8,16 +8,16 @@ cd "$WT" || exit 2
 git diff -- src include ':!include/tins/config.h' > /tmp/confirm_$P.diff
 [ -s /tmp/confirm_$P.diff ] || { echo "no change applied"; exit 2; }
 B() { cmake --build _build -j16 >/dev/null 2>&1 && cmake --build _build --target tests -j16 >/dev/null 2>&1; }
-D() { g++ -std=c++11 -I"$WT/include" demo.cpp -L"$WT/_build/lib" -ltins -lpthread -o demo_bin 2>/tmp/confirm_$P.err && LD_LIBRARY_PATH="$WT/_build/lib" timeout 120 ./demo_bin >/tmp/confirm_$P.out 2>&1; }
+D() { g++ -std=c++11 -I"$WT/include" demo.cpp -L"$WT/_build/lib" -ltins -lpthread -lcrypto -o demo_bin 2>/tmp/confirm_$P.err && LD_LIBRARY_PATH="$WT/_build/lib" timeout 120 ./demo_bin >/tmp/confirm_$P.out 2>&1; }
 B || { echo "build with change failed"; exit 2; }
 T=$(ctest --test-dir _build -j8 --timeout 900 2>&1 | grep -E "tests passed|tests failed")
 echo "with change: $T"
 D; RC_WITH=$?
 echo "demo with change: rc=$RC_WITH"; tail -3 /tmp/confirm_$P.out
-git stash -q -- src include || exit 2
+git apply -R /tmp/confirm_$P.diff || exit 2
 B; D; RC_WITHOUT=$?
 echo "demo without change: rc=$RC_WITHOUT"; tail -2 /tmp/confirm_$P.out
-git stash pop -q
+git apply /tmp/confirm_$P.diff || exit 2
 B
 OUT=/verif/seeded/$P-$SLOT
 case "$T" in *"100% tests passed"*) ;; *) echo "REJECT: test suite does not pass with the change"; exit 1;; esac
